@@ -954,8 +954,18 @@ func (c *FnCtx) loopHead(fr *Frame, li *loopInfo, st *State) {
 	// outside it stays unchanged on objects that existed at function entry, in every loop iteration.  It is an
 	// ordinary invariant (checked on entry and on every back edge), generated so that contracts need not repeat it.
 	li.frameComps = nil
-	if c.spec != nil && c.spec.HasMod {
+	if c.spec != nil && (c.spec.HasMod || len(c.spec.Preserves) > 0) {
 		allowed := c.eng.patternMods(c, c.specModPatterns(c.fn, c.spec))
+		if !c.spec.HasMod {
+			// a `preserves` clause: only the named components are framed
+			kept := c.eng.patternMods(c, c.spec.Preserves)
+			allowed = newModSet()
+			for _, k := range c.eng.compOrder {
+				if !kept.comps[k] {
+					allowed.comps[k] = true
+				}
+			}
+		}
 		var ks []string
 		if mods.all {
 			ks = append(ks, c.eng.compOrder...)
